@@ -31,6 +31,8 @@ def random_config(rng, cid, small=False):
     else:
         k = int(rng.integers(1, nb + 1))
         biGiven, bi = True, [int(b) + 1 for b in rng.permutation(nb)[:k]]
+        if rng.random() < 0.35:           # a band listed twice, anywhere in the list
+            bi.insert(int(rng.integers(0, len(bi) + 1)), bi[int(rng.integers(0, len(bi)))])
     ed = nb + 1
     e2 = []
     for q in range(nq):
@@ -44,7 +46,9 @@ def random_config(rng, cid, small=False):
         e2.append(m.tolist())
     return dict(id=cid, lev=lev.tolist(), w=w, cutGiven=cutGiven, cut=cut, pr=bool(rng.random() < 0.4),
                 biGiven=biGiven, bi=bi, classical=bool(rng.random() < 0.3), proj=bool(rng.random() < 0.4),
-                temps=list(TEMP_LISTS[int(rng.integers(0, len(TEMP_LISTS)))]), ed=ed, e2=e2)
+                temps=list(TEMP_LISTS[int(rng.integers(0, len(TEMP_LISTS)))]), ed=ed, e2=e2,
+                fl=str(rng.choice(["c", "c", "f", "strided", "float32"])), el=str(rng.choice(["c", "f", "strided"])),
+                wl=str(rng.choice(["int64"] * 7 + ["uint64", "intc", "strided"])))
 
 
 # ---- projection of a real run -------------------------------------------------
